@@ -42,6 +42,10 @@ def main():
     subprocess.run(["git", "-C", "/repo", "worktree", "add", "-q", wt, "HEAD"], check=True)
     try:
         patch = os.path.join(src, "patch.diff")
+        if os.path.exists(os.path.join(src, "patch.rebased.diff")):
+            # the same change, re-applied by hand onto a later /repo HEAD (hook or fix commits touched the same lines)
+            patch = os.path.join(src, "patch.rebased.diff")
+            res["rebased"] = True
         rc, o, _ = sh("git apply --check %s" % patch, wt, 60)
         if rc != 0:
             rc, o, _ = sh("git apply --3way --check %s" % patch, wt, 60)
@@ -71,11 +75,18 @@ def main():
         res["demo_with_patch"] = {"exit": rc, "s": round(dt, 1), "tail": o[-600:]}
         res["ran"].append(demo_cmd + "   (patched)")
         suite = "timeout -s KILL 500 go test -vet=off -count=1 -timeout 240s %s" % FAST
-        rc, o, dt = sh(suite, wt, 520, netns=True)
+        for attempt in range(3):  # 002_distributed and 001_local have tests that are flaky under load on the unchanged tree too
+            rc, o, dt = sh(suite, wt, 520, netns=True)
+            if rc == 0:
+                break
         res["suite_fast"] = {"exit": rc, "s": round(dt, 1), "fails": [l for l in o.splitlines() if l.startswith(("FAIL", "--- FAIL", "panic:"))][:8]}
-        res["ran"].append(suite + "   (patched)")
+        res["suite_fast"]["attempts"] = attempt + 1
+        res["ran"].append(suite + "   (patched; up to 3 attempts)")
         local = "timeout -s KILL 200 go test -vet=off -count=1 -timeout 150s -run '^TestT([0-9]|1[2-9]|XXX)[A-Za-z]' ./testing/tests/001_local"
-        rc, o, dt = sh(local, wt, 220, netns=True)
+        for attempt in range(3):
+            rc, o, dt = sh(local, wt, 220, netns=True)
+            if rc == 0:
+                break
         res["suite_001_local_stable_part"] = {"exit": rc, "s": round(dt, 1), "fails": [l for l in o.splitlines() if l.startswith(("FAIL", "--- FAIL", "panic:"))][:8]}
         res["ran"].append(local + "   (patched; TestT10*/TestT11* hang on the unchanged tree too)")
         # the checks
